@@ -130,21 +130,37 @@ def run(pid: str, tier: str, seed: int, selftest=False, replay=None) -> int:
     # exhaustive small scope (spec/SeqGen.tla): every sequence of <= 3 (thorough: 4) copies / compute ops / readers / barriers over three
     # buffers, straight-line or as loops over loop-local buffers (the input class outside the known findings)
     from gen_seq import render_ops, tlc_sequences
-    rg, seqs = tlc_sequences(pid, 8, 3 if tier == "quick" else 4, 1, False)
+    rg, seqs = tlc_sequences(pid, 8, 4, 2, False, nf=2)
     rep.add_tlc(rg)
     n_small = 0
+
+    def in_class(toks):
+        """straight-line code, or only loops at the top level whose bodies are straight-line or one perfectly nested loop (loop kinds:
+        run-time trip count / constant single trip); quick tier: <= 3 nodes, plus all two-deep nests with two operations"""
+        nloops = sum(t.startswith("F") for t in toks)
+        nodes = sum(1 for t in toks if t != ")")
+        if tier == "quick" and nodes > 3 and nloops < 2:
+            return False
+        if nloops == 0:
+            return True
+        d, stack = 0, []
+        for i, t in enumerate(toks):
+            if t.startswith("F"):
+                if d >= 1 and not toks[i - 1].startswith("F"):
+                    return False
+                stack.append(i)
+                d += 1
+            elif t == ")":
+                stack.pop()
+                d -= 1
+                if d >= 1 and (i + 1 >= len(toks) or toks[i + 1] != ")"):
+                    return False
+            elif d == 0:
+                return False
+        return True
     for toks in seqs:
-        if "F1" in toks:
-            d, ok = 0, True
-            for t in toks:
-                if t == "F1":
-                    d += 1
-                elif t == ")":
-                    d -= 1
-                elif d == 0:
-                    ok = False
-            if not ok:
-                continue
+        if not in_class(toks):
+            continue
         text, body, un, up = render_ops(toks, True)
         sources.append(("small:" + " ".join(toks), text, [[900001], [900002], [900003], [0, 1, 2] if un else [1], [0]]))
         n_small += 1
